@@ -404,6 +404,7 @@ class Report:
         self.trusted = list(TRUSTED_BASE_COMMON)
         self.distribution = {}
         self.open_obligations = []
+        self.explanation = ""
 
     # bookkeeping -----------------------------------------------------------------
     def count(self, key, nontrivial, n=1):
@@ -460,6 +461,8 @@ class Report:
             notes=self.notes,
             proof_build_wall_s=proof.get("wall_s"),
         )
+        if self.explanation:
+            cov["explanation"] = self.explanation
         ev = dict(
             property_id=self.prop_id,
             tier=self.tier,
